@@ -396,6 +396,8 @@ func init() {
 			"parameters and data Evaluate received. Non-trivial = series with >=2 levels / a checked reported threshold; distinct = (source, direction, coefficient, min, max, length).",
 		assumptions: []string{"a case whose ratio comes within 1e-12 of the stop bound without being equal to it is fragile (skipped); dyadic parameters hit bounds exactly and are judged"},
 		streams: []*stream{
+			{name: "endToEnd-service", n: tierN(3000, 50000), unit: 1500, run: c14EndToEnd, service: true,
+				note: "the same generator and oracle as the stream named in front of the dash, but every request goes through decideHandler of main.go in-process (gin binding, the handler's own request object) after a history of 1..3 unrelated requests (accepted and rejected)"},
 			{name: "endToEnd", n: tierN(16000, 300000), unit: 4000, run: c14EndToEnd, floors: map[string]int64{"reported_thresholds_checked": 10000, "e2e_after_bias": 2000, "e2e_invalid_params": 1500},
 				note: "aspect elimination / satisfaction requests with generated levels and 0..2 biases: every reported threshold and level index is checked against the documented series"},
 			{name: "grid", n: tierN(20000, 400000), unit: 2500, run: c14Case, floors: map[string]int64{"series_checked": 10000, "invalid_params": 1000, "clamped_at_bound": 100, "empty_series": 100}},
